@@ -133,6 +133,10 @@ func genC05Pair(r *Rng, p *Plan, idx int) *Plan {
 		adv = []string{"DEL", key}
 	case 1:
 		adv = []string{"FLUSHALL"}
+		if r.Chance(0.4) {
+			// modifiers other servers know (an error on this one): a flush has one position in the command order
+			adv = []string{Pick(r, []string{"FLUSHALL", "FLUSHDB"}), Pick(r, []string{"ASYNC", "SYNC"})}
+		}
 	case 2:
 		adv = []string{"SET", key, "zz"}
 	case 3:
